@@ -154,7 +154,10 @@ func (m *MerkleBlock) calcBlock(block *bchutil.Block) *wire.MsgMerkleBlock {
 	}
 
 	// Build the depth-first partial merkle tree.
-	m.traverseAndBuild(height, 0)
+	// A block without transactions has no tree to traverse.
+	if m.numTx > 0 {
+		m.traverseAndBuild(height, 0)
+	}
 
 	// Create and return the merkle block.
 	msgMerkleBlock := wire.MsgMerkleBlock{
